@@ -223,7 +223,7 @@ def main():
         "coverage": {
             "evaluations": max(1, total_hist),
             "distinct_nontrivial": max(distinct, 0),
-            "rule": "A case is one API history generated from (workload seed, history index) by a typed generator over {parse, build graph through the public node API, edit (nodes_mut), freeze ok / error paths (dangling key in an unreachable node at every index, reachable dangling key, empty graph), render an unnamed-only cycle, move schema into Box / Vec that reallocates / Arc / another thread, clone Arc, serialize + deserialize, deserialize into targets borrowing from the input slice, enum symbol into owned and (refused) borrowed targets, open container reader (slice | owned reader; null | deflate | snappy; + bzip2 | xz | zstandard under ASan), read n, deserialize_next_borrowed, clone reader.schema(), move reader into Box / another thread, drop in PRNG-chosen order (handles before reader, reader before handles, reader mid-block, schema before values), a borrowing seed handed to a reader over an impl BufRead, a reader MOVED between two reads of one block (out of a Box whose slot is re-used, by a reallocating Vec, by a swap, out of a function, Option::take), values of widely varying sizes through readers with 1 to 8192-byte buffers (the scratch buffer: datum after datum on one reader, container files), a source or a sink that PANICS at a seeded call index (unwind caught; the object is then dropped, or used again and dropped), LONG histories on one object (a writer and a reader over 130-540 blocks — 66-78 under Miri — whose sizes follow a pattern: one large block then small ones then a medium one, growing, shrinking, spikes every 16 / 64 / 128 / 256; one serializer configuration and one deserializer state over hundreds of datums)} and a concurrency template (2-3 threads on one &Schema or Arc<Schema>, results compared with sequential ones, main handle dropped while workers run). Every history is non-trivial (it always crosses the unsafe self-referential construction or the reader's fake-'static reference). distinct = distinct (template, saturated multiset of op kinds executed so far in the process), summed over executions. Under Miri each execution is one (workload slice, miri seed, preemption rate) triple: the interpreter's seeded scheduler decides every thread interleaving and allocation address.",
+            "rule": "A case is one API history generated from (workload seed, history index) by a typed generator over {parse, build graph through the public node API, edit (nodes_mut), freeze ok / error paths (dangling key in an unreachable node at every index, reachable dangling key, empty graph), render an unnamed-only cycle, move schema into Box / Vec that reallocates / Arc / another thread, clone Arc, serialize + deserialize, deserialize into targets borrowing from the input slice, enum symbol into owned and (refused) borrowed targets, open container reader (slice | owned reader; null | deflate | snappy; + bzip2 | xz | zstandard under ASan), read n, deserialize_next_borrowed, clone reader.schema(), move reader into Box / another thread, drop in PRNG-chosen order (handles before reader, reader before handles, reader mid-block, schema before values), a borrowing seed handed to a reader over an impl BufRead, a reader MOVED between two reads of one block (out of a Box whose slot is re-used, by a reallocating Vec, by a swap, out of a function, Option::take), values of widely varying sizes through readers with 1 to 8192-byte buffers (the scratch buffer: datum after datum on one reader, container files), a source or a sink that PANICS at a seeded call index (unwind caught; the object is then dropped, or used again and dropped), LONG histories on one object (a writer and a reader over 130-540 blocks — 66-78 under Miri — whose sizes follow a pattern: one large block then small ones then a medium one, growing, shrinking, spikes every 16 / 64 / 128 / 256; one serializer configuration and one deserializer state over hundreds of datums), a reader polled on past the end of its file into what FOLLOWS (a second complete file with the same schema in another spelling / another schema / the same file again, a header cut short, the magic followed by garbage) with every other schema handle dropped} and a concurrency template (2-3 threads on one &Schema or Arc<Schema>, results compared with sequential ones, main handle dropped while workers run). Every history is non-trivial (it always crosses the unsafe self-referential construction or the reader's fake-'static reference). distinct = distinct (template, saturated multiset of op kinds executed so far in the process), summed over executions. Under Miri each execution is one (workload slice, miri seed, preemption rate) triple: the interpreter's seeded scheduler decides every thread interleaving and allocation address.",
             "samples": samples,
             "miri_executions": executions["miri"],
             "miri_histories": histories["miri"],
